@@ -153,7 +153,7 @@ def main():
             facts.setdefault("import_errors", {})[mn] = repr(e); continue
         g = {}
         for n, v in vars(m).items():
-            if n.startswith("__") and n.endswith("__"): continue
+            if n.startswith("__") and n.endswith("__") and n != "__version__": continue
             if isinstance(v, type):
                 g[n] = {"k": "class", "q": add_class(v)}
             elif isinstance(v, types.ModuleType):
